@@ -13,10 +13,11 @@ CHECK = dict(
            "asan:images_writePFM<vec3f>": 200, "asan:images_writePFM<vec3fa>": 200, "asan:images_writePFM<vec4f>": 200,
            "asan:trace_files_checked_offline": 20, "asan:trace_events_compared_offline": 50000,
            "tsan:trace_files_checked_offline": 5, "asan:trace_sequential_scenarios": 5,
-           "asan:trace_threads_that_reused_an_id": 5, "asan:trace_second_saves": 5, "asan:concurrent_writer_rounds": 20, "tsan:concurrent_writer_rounds": 5},
+           "asan:trace_threads_that_reused_an_id": 5, "asan:trace_second_saves": 5, "asan:trace_scenarios_with_many_distinct_names": 2, "asan:concurrent_writer_rounds": 20, "tsan:concurrent_writer_rounds": 5},
     assumptions=[
         "image writers called at the same time from several threads, each with its own pixels and file, are independent calls",
-        "event names/categories come from stable storage over [A-Za-z0-9_ ] (the recorder caches strings by pointer and does not escape)",
+        "event names/categories come from stable storage over [A-Za-z0-9_ ] (the recorder caches strings by pointer and does not escape); "
+        "their number is not bounded (up to 140000 distinct names on one thread)",
         "recording threads are quiescent when saveLog runs: either all still alive (distinct ids) or all exited after running one after "
         "the other; threads that shared one std::thread::id are one recording thread to the recorder (events in sequence, last name)",
         "the writer's own cpuUtilization counters are ignored by the comparison",
